@@ -68,7 +68,10 @@ Corrupt == /\ pc \in {"none", "ready"} /\ file = "intact" /\ faults < MaxFaults
    uses the same cache directory: its database lives under another name (the cache key covers
    expressions AND flags), so nothing this tokenizer reads changes *)
 Foreign == /\ pc \in {"none", "ready"} /\ faults < MaxFaults
-           /\ hist' = Append(hist, "foreign") /\ faults' = faults + 1
+           /\ \E kind \in {"foreign", "foreignorder"} : hist' = Append(hist, kind)
+              \* "foreignorder": the SAME patterns and flags in another order (a database reports pattern positions,
+              \* so the order is part of what the cache key must cover)
+           /\ faults' = faults + 1
            /\ UNCHANGED <<file, pc, db, err>>
 Next == Begin \/ Exists \/ Scratch \/ Compile \/ WriteBegin \/ WriteEnd \/ Crash \/ Corrupt \/ Foreign
 Spec == Init /\ [][Next]_vars
